@@ -184,7 +184,16 @@ def run_check(pid, tier):
             if line.startswith("KNOWN-FINDING"):
                 print(line)
         if p.returncode != 0:
+            crashed = "panic: test timed out" not in p.stdout and re.search(r"^(panic: |fatal error: |WARNING: DATA RACE)", p.stdout, re.M)
             if "VIOLATION-CANDIDATE" in p.stdout:
+                status = 1
+            elif crashed:
+                # the stored case of a known finding now kills the process: that is not how it is recorded
+                started = re.findall(r"^KNOWN-REPLAY-START (\S+)", p.stdout, re.M)
+                rp = os.path.join(ROOT, started[-1]) if started else "?"
+                print("VIOLATION property=%s replay=%s" % (pid, rp))
+                print("  sig=%s:process-crash-in-known-finding-replay" % pid)
+                print("  " + p.stdout[crashed.start():crashed.start() + 2500].replace("\n", "\n  "))
                 status = 1
             else:
                 print(p.stdout[-3000:])
@@ -266,6 +275,9 @@ def crash_violation(pid, out, replaydir, shard, run, statsdir):
         return False
     j = os.path.join(replaydir, "%s-inflight-%d.json" % (pid, shard))
     if not os.path.exists(j):
+        # nothing in flight: a goroutine left behind by the previous case killed the process
+        j = os.path.join(replaydir, "%s-last-%d.json" % (pid, shard))
+    if not os.path.exists(j):
         return False
     m = re.search(r"^(?:panic: |fatal error: |WARNING: )(.*)$", out, re.M)
     what = m.group(1).strip()[:120] if m else "crash"
@@ -281,6 +293,8 @@ def crash_violation(pid, out, replaydir, shard, run, statsdir):
 
 def _journal_violation(pid, out, m, sig, replaydir, shard, statsdir, headline):
     j = os.path.join(replaydir, "%s-inflight-%d.json" % (pid, shard))
+    if not os.path.exists(j):
+        j = os.path.join(replaydir, "%s-last-%d.json" % (pid, shard))
     doc = json.load(open(j))
     doc["sig"] = sig
     doc["detail"] = "%s\n%s" % (headline, out[m.start():m.start() + 3500] if m else "")
